@@ -510,7 +510,11 @@ class RaggedArray(IndexableArray, np.lib.mixins.NDArrayOperatorsMixin):
 
     def _first_position_of(self, row_values):
         """column of the first cell of each row equal to the row's entry in the column vector `row_values`"""
-        rows, cols = np.nonzero(self == row_values)
+        matches = self == row_values
+        if np.issubdtype(self.dtype, np.inexact):
+            # the extremum of a row holding a NaN is NaN, which equals nothing: numpy reports the first NaN
+            matches = matches | ((self != self) & (row_values != row_values))
+        rows, cols = np.nonzero(matches)
         first_rows, idxs = np.unique(rows, return_index=True)
         result = np.zeros(len(self), dtype=int)  # empty rows have no arg-extremum: unspecified, reported as 0
         result[first_rows] = cols[idxs]
